@@ -30,6 +30,11 @@ class EnergyStream(Stream):
             ne = len(d["expo"])
             d["us"] = [[[z.real, z.imag] for z in (rand_dyadic(rng, 16, 8) for _ in range(ne))]
                        for _ in range(3)]
+            # the same laws must hold when part of the circuit is declared as monitors (another path through solve):
+            # a random non-empty proper subset, preferably of several structures
+            nc = len(d["comps"])
+            if nc >= 2 and rng.random() < 0.3:
+                d["mon"] = sorted(rng.sample(range(nc), rng.randint(1, nc - 1) if nc < 3 else rng.randint(2, nc - 1)))
             out.append(d)
         return out
 
@@ -37,6 +42,8 @@ class EnergyStream(Stream):
         names = [x[2] for x in d["expo"]]
         try:
             sol, sts = netlib.build(d)
+            for i in d.get("mon", []):
+                sol.monitor_structure(sts[i], name=f"M{i}")
             mod = sol.solve()
             got = sorted(p.name for p in mod.pin_dic)
             if got != sorted(names):
@@ -52,7 +59,8 @@ class EnergyStream(Stream):
         return len(d["comps"]) >= 2 and len(d["conns"]) >= 1 and len(d["expo"]) >= 1
 
     def classify(self, d):
-        return "%s/c%d/l%d/e%d" % (d["kind"], len(d["comps"]), len(d["conns"]), len(d["expo"]))
+        return "%s/c%d/l%d/e%d%s" % (d["kind"], len(d["comps"]), len(d["conns"]), len(d["expo"]),
+                                     "/mon%d" % len(d["mon"]) if d.get("mon") else "")
 
     def shrink(self, d):
         out = []
@@ -61,6 +69,8 @@ class EnergyStream(Stream):
                 continue  # dropping an exposure would leave the lossless premise
             ne = len(e["expo"])
             e["us"] = [u[:ne] for u in e["us"]]
+            if len(e["comps"]) != len(d["comps"]):
+                e.pop("mon", None)
             out.append(e)
         return out
 
